@@ -19,6 +19,8 @@ META = dict(
     assumptions=["contraction: the infinity norm of the concrete coupling matrix is < 1", "tolerance tol > 0 symbolic (settings validation needs a concrete number: the MDA's settings.tolerance is overwritten after construction)"],
 )
 
+EXPLORER_OPTS = {"quick": dict(query_timeout_ms=30000), "thorough": dict(query_timeout_ms=90000)}
+
 # systems: list of disciplines; each discipline: (name, output name, {coupling input name: coefficient}, external input name or None)
 SYSTEMS = {
     "ring2": [("d0", "y0", {"y1": Fraction(1, 2)}, "x0"), ("d1", "y1", {"y0": Fraction(-1, 3)}, "x1")],
